@@ -95,6 +95,23 @@ class TaskModel:
             if k not in vt:
                 raise Unsupported("cannot locate TaskVtable.%s in the MIR dump" % k)
         self.hdr, self.vt = hdr, vt
+        sh = {}
+        want = {"waker": r".*Option<.*Waker>", "pending": r".*Atomic<usize>", "sync": r".*ArrayQueue<.*TaskId>",
+                "queue": r".*SendWrapper<.*TaskQueue>"}
+        for f in self.fns.values():
+            if not (f.name.endswith("::schedule") and ("task/remote.rs" in f.name or "task/local.rs" in f.name)):
+                continue
+            for stmts in f.blocks.values():
+                for st in stmts:
+                    for m in re.finditer(r"\(\(\*_\d+\)\.(\d+): ((?:[^()]|\((?:[^()]|\([^()]*\))*\))+)\)", st):
+                        ty = m.group(2).strip()
+                        for k, pat in want.items():
+                            if k not in sh and re.fullmatch(pat, ty) and "Header" not in ty and "State" not in ty:
+                                sh[k] = int(m.group(1))
+        for k in want:
+            if k not in sh:
+                raise Unsupported("cannot locate Shared.%s in the MIR dump" % k)
+        self.sh = sh
 
     def resolver(self, callee):
         clean = strip_generics(callee)
@@ -120,7 +137,7 @@ class TaskModel:
         return None
 
     # ------------------------------------------------------------------ one schedule
-    def run_schedule(self, path, handle_mode, program, clones=1, preempt_bound=None, max_ticks=4):
+    def run_schedule(self, path, handle_mode, program, clones=1, preempt_bound=None, max_ticks=4, teardown=False):
         """handle_mode: 'local' | 'remote'; program: tuple of handle operations."""
         W = type("W", (), {})()
         W.violation = None
@@ -138,10 +155,13 @@ class TaskModel:
         W.join_wakes_of = {}
         W.hot = True                  # a freshly spawned task is hot
         W.cancel_done = False
+        W.e_exhausted = False
         W.tick_after_cancel = False
         W.clones_left = clones
         W.new_threads = []
         W.handle_result = []
+        W.shared_freed = False
+        W.torn_down = False
         consts = {}
 
         def viol(msg):
@@ -176,8 +196,11 @@ class TaskModel:
         def atomic(I_, a, p, callee):
             cell = a[0].cell
             op = re.search(r"::(\w+)$", strip_generics(callee)).group(1)
-            yield ("atomic", ("state." + op + (" %s (state %s)" % (z3.simplify(a[1]) if len(a) > 1 and z3.is_bv(a[1]) else "", z3.simplify(cell.v)))) if cell is state else "shared." + op)
-            alive("atomic %s" % op)
+            yield ("atomic", ("state." + op) if cell is state else ("pending." + op) if cell is pending else "shared-ptr." + op)
+            if cell is pending:
+                shared_alive("pending counter access")
+            else:
+                alive("atomic %s" % op)
             old = cell.v
             if len(a) > 1 and op != "store" and not z3.is_bv(a[1]) and op not in ("load",):
                 raise Unsupported("atomic %s with non-bitvector operand %r" % (op, a[1]))
@@ -201,18 +224,56 @@ class TaskModel:
         def s_valid(I_, a, p, c):
             return z3.BoolVal(W.current in ("E", "Hl"))
 
-        def s_schedule(I_, a, p, c):
-            yield ("atomic", "schedule")
-            alive("schedule")
-            sh = header.field_cell(self.hdr["shared"]).v
-            if not (isinstance(sh, tuple) and sh[0] == "null"):
-                W.hot = True
+        shared = Lazy({}, "Shared")
+        shared_cell = Cell(shared)
+        pending = Cell(z3.BitVecVal(0, 64))
+
+        def shared_alive(what):
+            if W.shared_freed:
+                viol("use after free: %s after the executor (and its Shared block) was dropped" % what)
+
+        def s_shared_as_ref(I_, a, p, c):
+            v = a[0]
+            if isinstance(v, tuple) and v[0] == "null":
+                return EnumV(0)
+            return EnumV(1, [Cell(Ref(shared_cell))])
+
+        def s_shared_is_null(I_, a, p, c):
+            v = a[0]
+            return z3.BoolVal(isinstance(v, tuple) and v[0] == "null")
+
+        def s_push(I_, a, p, c):
+            yield ("atomic", "sync.push")
+            shared_alive("push onto the cross-thread queue")
+            W.hot = True
+            return EnumV(0, [Cell(UNIT)])
+
+        def s_make_hot(I_, a, p, c):
+            shared_alive("make_hot")
+            W.hot = True
+            return UNIT
+
+        def s_get_unchecked(I_, a, p, c):
+            shared_alive("local queue access")
+            return Ref(Cell(("task-queue",)))
+
+        def s_drain(I_, a, p, c):
+            shared_alive("drain_sync")
+            return UNIT
+
+        def s_spin(I_, a, p, c):
+            cur = state.v
+            yield ("block", lambda: not z3.eq(z3.simplify(state.v), z3.simplify(cur)))
             return UNIT
 
         def s_view(I_, a, p, c):
             alive("view")
             inner = Struct({0: Cell(hptr)})
             return EnumV(0, [Cell(inner)]) if W.current in ("E", "Hl") else EnumV(1, [Cell(inner)])
+
+        def s_res_is_err(I_, a, p, c):
+            r = a[0].cell.v if isinstance(a[0], Ref) else a[0]
+            return z3.BoolVal(r.variant == 1)
 
         def s_false(I_, a, p, c):
             return z3.BoolVal(False)
@@ -268,6 +329,12 @@ class TaskModel:
 
         def s_wake_by_ref(I_, a, p, c):
             w = a[0].cell.v if isinstance(a[0], Ref) else a[0]
+            if isinstance(w, tuple) and w[0] == "driver-waker":
+                # ExecutorConfig::waker, stored inside the Shared block: user code running on the waking thread
+                shared_alive("driver waker (stored in Shared) invoked")
+                yield ("step", "inside the driver waker")
+                shared_alive("driver waker (stored in Shared) still running")
+                return UNIT
             yield ("step", "wake %s" % (w,))
             if isinstance(w, tuple) and w[0] == "join-waker":
                 W.join_wakes += 1
@@ -382,7 +449,10 @@ class TaskModel:
             (r"^Atomic::<", atomic),
             (r"SendWrapper::<\(\)>::valid$", s_valid),
             (r"^<ManuallyDrop<.*> as Deref(?:Mut)?>::deref(?:_mut)?$", s_identity),
-            (r"^Task::schedule$", s_schedule),
+            (r"<impl \*mut Shared>::as_ref", s_shared_as_ref), (r"<impl \*mut Shared>::is_null", s_shared_is_null),
+            (r"^ArrayQueue::<TaskId>::push$", s_push), (r"^TaskQueue::make_hot$", s_make_hot),
+            (r"SendWrapper::<TaskQueue>::get_unchecked$", s_get_unchecked), (r"^Shared::drain_sync$", s_drain),
+            (r"spin_loop$|^yield_now$", s_spin), (r"^Result::<\(\), TaskId>::is_err$", s_res_is_err),
             (r"^Task::view$", s_view),
             (r"panicking$", s_false),
             (r"TaskSpan::|WakerOp|record_waker_op$", s_unit),
@@ -415,6 +485,9 @@ class TaskModel:
         header.cells[self.hdr["state"]] = Cell(Struct({0: state}))
         header.cells[self.hdr["vtable"]] = Cell(Ref(Cell(vtable)))
         header.cells[self.hdr["shared"]] = Cell(Struct({0: Cell(("shared-ptr",))}))
+        for k, idx in self.sh.items():
+            shared.cells[idx] = {"waker": Cell(EnumV(1, [Cell(("driver-waker",))])), "pending": pending,
+                                 "sync": Cell(("array-queue",)), "queue": Cell(("send-wrapper-queue",))}[k]
         header.cells[self.hdr["waker"]] = slot_cell
 
         f_run = self.find("task/mod.rs:172", "run", r"_1: &Task\)")
@@ -434,7 +507,21 @@ class TaskModel:
         def executor():
             t = task_val()
             ticks = 0
+            f_wait = self.find("task/mod.rs:172", "wait_for_scheduling")
             while ticks < max_ticks:
+                if teardown and path.choose(2, "executor torn down now?") == 1:
+                    # Executor::clear / drop: drop the task's contents, wait for in-flight remote scheduling,
+                    # release the queue's reference, free the Shared block
+                    yield ("step", "Executor::clear")
+                    yield from I.call_fn(f_tdrop, [Ref(Cell(t))], path)
+                    yield from I.call_fn(f_wait, [Ref(Cell(t))], path)
+                    yield from I.call_fn(f_rcdrop, [Ref(Cell(t))], path)
+                    W.removed = True
+                    W.torn_down = True
+                    yield ("step", "free Shared")
+                    W.shared_freed = True
+                    yield ("done", "executor dropped")
+                    return
                 yield ("block", lambda: W.hot)
                 W.hot = False
                 ticks += 1
@@ -450,6 +537,7 @@ class TaskModel:
                     return
                 W.home_busy = None
                 yield ("step", "tick done")
+            W.e_exhausted = True
             return
 
         def handle(tid):
@@ -525,9 +613,11 @@ class TaskModel:
             if htid == "Hl" and mo in ("E", "Hl") and mo in alive_t:
                 runnable = [t for t in runnable if t == mo or t not in ("E", "Hl")]
             if not runnable:
-                if W.waiting_join and (W.completed or W.removed):
-                    verdict = "lost wake-up: the join handle waits for a task that %s but its waker was never woken" % (
-                        "completed" if W.completed else "was removed")
+                if W.waiting_join and W.completed:
+                    verdict = "lost wake-up: the join handle waits for a task that completed but its waker was never woken"
+                elif W.cancel_done and not W.removed and W.storage == "future" and "E" in alive_t and not W.e_exhausted:
+                    verdict = ("the handle was dropped / cancel() returned, but the task was never scheduled again: its future "
+                               "is never dropped by the executor")
                 break
             if preempt_bound is not None and last_run in runnable and preemptions >= preempt_bound:
                 th = last_run
@@ -596,16 +686,17 @@ class TaskModel:
         return "ok"
 
 
-def explore_schedules(model, handle_mode, program, seed=0, max_paths=300000, preempt_bound=None, clones=1):
+def explore_schedules(model, handle_mode, program, seed=0, max_paths=300000, preempt_bound=None, clones=1, teardown=False):
     from explore import _expand
     stack = [[]]
     npaths = steps = queries = 0
-    bad = None
+    bads = {}
     while stack:
         dec = stack.pop()
         p = Path(dec, seed)
         try:
-            verdict, st = model.run_schedule(p, handle_mode, program, clones=clones, preempt_bound=preempt_bound)
+            verdict, st = model.run_schedule(p, handle_mode, program, clones=clones, preempt_bound=preempt_bound,
+                                             teardown=teardown)
         except Infeasible:
             _expand(stack, dec, p, upto=p.pos)
             continue
@@ -615,7 +706,15 @@ def explore_schedules(model, handle_mode, program, seed=0, max_paths=300000, pre
         if npaths > max_paths:
             raise Unsupported("schedule bound exceeded")
         _expand(stack, dec, p, upto=len(p.decisions))
-        if verdict != "ok" and bad is None:
-            bad = (verdict, list(p.trace))
-            break
+        if verdict != "ok":
+            # keep one schedule per distinct verdict and go on: a recorded known finding must not mask a different violation
+            key = re.sub(r"\d+", "N", verdict)
+            if key not in bads:
+                bads[key] = (verdict, list(p.trace))
+            if len(bads) >= 6:
+                break
+    bad = None
+    if bads:
+        first = list(bads.values())
+        bad = (first[0][0], first[0][1], first[1:])
     return npaths, steps, queries, bad
